@@ -166,7 +166,7 @@ def run(spec):
         work = VERIF / ".work"
         work.mkdir(exist_ok=True)
         if examples:
-            f = work / f"c09_src_{seed}_{shard}.json"
+            f = work / f"c09_src_{seed}_{shard}_{os.getpid()}.json"
             f.write_text(json.dumps(_gen_sources(seed, 1000 + shard, examples)))
             runs.append([exe, "-m", "vpbt.c09_oracle", "0", "1", "1000000", str(f)])
         for cmd in runs:
@@ -351,7 +351,7 @@ def replay(inp):
         work = VERIF / ".work"
         work.mkdir(exist_ok=True)
         if inp.get("src"):
-            f = work / "c09_replay.json"
+            f = work / f"c09_replay_{os.getpid()}.json"
             f.write_text(json.dumps([inp["src"]]))
             cmd = [exe, "-m", "vpbt.c09_oracle", "0", "1", "1000000", str(f)]
             p = subprocess.run(cmd, capture_output=True, text=True, env=env, cwd=str(VERIF), timeout=600)
